@@ -154,6 +154,12 @@ FACT = [
       "        return np.array(scalar, dtype=dtype) == np.array(scalar)\n"
       "except (ValueError, OverflowError):\n    return False"],
      "Definition s_can_store (d : dty) (z : Z) : bool := fits d z."),
+    # getitem: the identity shortcut taken before the mask — every index entry is the full slice
+    # slice(0, dim, 1) => the operand itself is returned (coordinates and their dtype untouched)
+    ("s_getitem_identity", INDEXING, "getitem",
+     ["if len(index) != 0 and all((isinstance(ind, slice) and ind == slice(0, dim, 1) "
+      "for ind, dim in zip_longest(index, x.shape))):\n    return x"],
+     "Definition s_getitem_identity (n start stop step : Z) : bool := (start =? 0) && (stop =? n) && (step =? 1)."),
     # _calc_counts_invidx: dtype of the returned offsets / counts.  Two alternatives (the first whose
     # statements are all present is emitted): intp (current code), or the dtype of `groups` (finding D2,
     # repaired by 5f3fb78 — if it comes back the definition below changes and reduce's theorem breaks)
